@@ -666,7 +666,14 @@ func (g *gen) workload() {
 			if ph := g.plan.Peers[pi].PeerHold; ph < hold {
 				hold = ph
 			}
-			if hold > 0 {
+			if hold > 0 && r.Chance(0.4) {
+				// the connection stops taking writes shortly before the hold timer runs out (often after
+				// the DUT's last keepalive of the period): the NOTIFICATION of the expiry cannot be sent
+				g.add(Step{GapUS: int64(hold) * 800_000, Kind: "wait", Label: "most-of-the-hold-time"})
+				g.add(Step{GapUS: 1000, Kind: "fail_write", Peer: pi, N: 1})
+				g.add(Step{GapUS: int64(hold)*200_000 + 2_500_000, Kind: "wait", Label: "hold-expiry"})
+				g.lost(pi)
+			} else if hold > 0 {
 				g.add(Step{GapUS: int64(hold)*1_000_000 + 2_500_000, Kind: "wait", Label: "hold-expiry"})
 				g.lost(pi)
 			}
